@@ -172,8 +172,13 @@ def draw_solve(rng, P, out, peer_mode="tagged", allow_mosek=True, allow_heuristi
         # cvxpy wrapper with the stand-in visible: the wrapper's own licence probing runs
         envc = {"mosek": "present", "licence": rng.choice([{}, {"days": -1}, {"checkout_raises": True}])}
     solver = real_solver or rng.choice(["CLARABEL", "CLARABEL", "CLARABEL", "SCS"])
-    if rng.random() < 0.8:
+    r = rng.random()
+    if r < 0.8:
         cfg["kwargs"]["solver"] = solver
+    elif r < 0.87:
+        cfg["kwargs"]["solver"] = None      # documented as "let the wrapper choose" (MOSEK if usable, else SCS)
+    if transport == "cvxpy" and rng.random() < 0.05:
+        cfg["wrapper"] = rng.choice(["gurobi", "CVXPY", "Cvxpy", "scs"])   # unknown names fall back to cvxpy
     peer = {"mode": peer_mode, "tagseed": rng.randrange(1 << 30), "solver": solver}
     if peer_mode == "tagged" and rng.random() < 0.3:
         peer["indef"] = True
@@ -203,7 +208,8 @@ def edit_ops(rng, b, s, bias=None):
     ops = []
     pts = [p for p in b.points if p]
     metrics = b.info.get("metrics") or []
-    kind = rng.choice(["metric", "metric", "cons", "lmi", "func_cons", "part_cons", "remove_cons", "more_samples"])
+    kind = rng.choice(["metric", "metric", "cons", "lmi", "func_cons", "part_cons", "remove_cons", "more_samples",
+                       "param"])
     if bias and rng.random() < 0.6:
         kind = bias
     tag = "ed%d_" % s
@@ -228,6 +234,10 @@ def edit_ops(rng, b, s, bias=None):
         e = tag + "e"
         ops.append({"op": "sq", "out": e, "a": rng.choice(pts)})
         ops.append({"op": "cons", "out": tag + "c", "lhs": e, "rel": "<=", "rhs": 9.5e3, "target": b.parts[0]})
+    elif kind == "param" and b.info.get("main_f"):
+        fop = next((o for o in b.ops if o["op"] == "func" and o["out"] == b.info["main_f"]), None)
+        if fop and "L" in (fop.get("params") or {}):
+            ops.append({"op": "setparam", "f": b.info["main_f"], "attr": "L", "scale": float("%.2g" % rng.uniform(0.8, 0.99))})
     elif kind == "remove_cons":
         red = [o["out"] for o in b.ops if o["op"] == "cons" and o.get("target") == b.P and o.get("how") != "initial"]
         if red:
